@@ -197,24 +197,34 @@ DEC_METHODS = {
     "betting_mart+fixed_bet": {"test": "betting_mart", "bet": "fixed_bet", "kw": {"lam": 0.5}},
     "betting_mart+agrapa": {"test": "betting_mart", "bet": "agrapa", "kw": {"lam": 0.5}},
     "kaplan_kolmogorov": {"test": "kaplan_kolmogorov", "kw": {"g": 0.1}},
+    "kaplan_kolmogorov(g=0)": {"test": "kaplan_kolmogorov", "kw": {"g": 0}},
     "wald_sprt": {"test": "wald_sprt", "kw": {"eta": 0.6}},
 }
-DEC_T = (0.45, 0.35)
+DEC_T = (0.45, 0.35, 0.5)
 
 
 def dec_populations(t):
     """every multiset of 4 values from {0, 0.1, ..., 1} whose mean, computed exactly from the floating-point values, is at
-    most the floating-point t: null populations in the strictest sense"""
+    most the floating-point t: null populations in the strictest sense.  For t = 1/2 instead: every multiset of 2 or 3
+    values from {0, 2^-53, 1/2, 1 - 2^-53, 1} (totals that tie with N t up to one unit in the last place)"""
     import itertools
     from fractions import Fraction as Fr
+    if t == 0.5:
+        vals = [0.0, 2.0 ** -53, 0.5, 1 - 2.0 ** -53, 1.0]
+        for n in (2, 3):
+            for pop in itertools.combinations_with_replacement(vals, n):
+                if sum(Fr(v) for v in pop) <= n * Fr(t):
+                    yield pop
+        return
     vals = [i / 10 for i in range(11)]
     for pop in itertools.combinations_with_replacement(vals, 4):
         if sum(Fr(v) for v in pop) <= 4 * Fr(t):
             yield pop
 
 
-def judge_decimal(mname, t, pop):
-    """exact risk over all orderings of one population (sampled completely, without replacement)"""
+def judge_decimal(mname, t, pop, f32=False):
+    """exact risk over all orderings of one population (sampled completely, without replacement); f32: the sample arrives
+    as a single-precision array (then the population is the single-precision values, and must still be null)"""
     import itertools
     import warnings
     import numpy as np
@@ -223,17 +233,21 @@ def judge_decimal(mname, t, pop):
     with warnings.catch_warnings():
         warnings.simplefilter("ignore")
         nm = NonnegMean(test=s1.TESTS[m["test"]], estim=s1.ESTIMS[m["estim"]] if m.get("estim") else None, bet=s1.BETS[m["bet"]] if m.get("bet") else None,
-                        u=1, N=4, t=t, **m["kw"])
+                        u=1, N=len(pop), t=t, **m["kw"])
+        if f32:
+            from fractions import Fraction as Fr
+            if sum(Fr(float(np.float32(v))) for v in pop) > len(pop) * Fr(t):
+                return []  # rounded to single precision the population is no longer null
         qs = []
         for perm in sorted(set(itertools.permutations(pop))):
-            p, h = nm.test(np.array(perm))
+            p, h = nm.test(np.array(perm, dtype=np.float32) if f32 else np.array(perm))
             qs.append(min(float(p), float(np.nanmin(np.asarray(h, dtype=float)))))
     n = len(qs)
     for a in sorted(set(qs)):
         P = sum(1 for q in qs if q <= a) / n
         if a < 1 and P > a + TOL:
-            key = f"C01|{mname}|finite-N|risk-exceeds-alpha|non-binary-values|t={t}|population={','.join(format(v, 'g') for v in pop)}"
-            return [(key, f"{mname}, N=4, t={t}: the null population {list(pop)} (exact mean of the floats <= t) sampled completely gives P(p <= {a}) = {P:.4f} "
+            key = f"C01|{mname}|finite-N|risk-exceeds-alpha|non-binary-values{'|float32' if f32 else ''}|t={t}|population={','.join(format(v, 'g') for v in pop)}"
+            return [(key, f"{mname}, N={len(pop)}, t={t}: the null population {list(pop)} (exact mean of the floats <= t) sampled completely gives P(p <= {a}) = {P:.4f} "
                           f"over its {n} orderings: the running total is compared with N t in floating point and rounds one ulp above it")]
     return []
 
@@ -247,6 +261,9 @@ def run_decimal(sh, rec):
         rec.vac("populations_of_non_binary_values")
         for key, what in judge_decimal(mname, t, pop):
             rec.violate(key, what, {"decimal": True, "method": mname, "t": t, "pop": list(pop)})
+        rec.evals(24)
+        for key, what in judge_decimal(mname, t, pop, f32=True):
+            rec.violate(key, what + " [sample passed as a float32 array]", {"decimal": True, "method": mname, "t": t, "pop": list(pop), "f32": True})
 
 
 def run_shard(sh, rec):
@@ -262,7 +279,7 @@ def explore(tier, seed):
 
 def run_case(case):
     if case.get("decimal"):
-        return judge_decimal(case["method"], case["t"], tuple(case["pop"]))
+        return judge_decimal(case["method"], case["t"], tuple(case["pop"]), bool(case.get("f32")))
     cfg = case["cfg"]
     g = s1.grid(cfg)
     memo = {}
